@@ -11,6 +11,7 @@ import (
 	"os"
 	"sort"
 	"strings"
+	"unicode"
 	"unicode/utf8"
 
 	"github.com/mattn/go-runewidth"
@@ -634,6 +635,16 @@ func abbreviate(s string, maxLen int) string {
 	return s[:cut] + "…"
 }
 
+// singleLine replaces control characters with spaces so the text stays on one terminal row.
+func singleLine(s string) string {
+	return strings.Map(func(r rune) rune {
+		if unicode.IsControl(r) {
+			return ' '
+		}
+		return r
+	}, s)
+}
+
 // stateIcon returns the appropriate icon for a task's state.
 func stateIcon(task *Task, isReady bool) string {
 	if task.IsEpic {
@@ -855,9 +866,14 @@ func formatTreeLine(prefix, connector string, showConnector bool, icon, id, titl
 		}
 	}
 
+	// One item, one row: control characters (a newline in a title, a tab) would split the row
+	// or shift the id column.
+	title = singleLine(title)
+	blockerAnnotation = singleLine(blockerAnnotation)
+
 	annotationStr := ""
 	if len(annotations) > 0 {
-		annotationStr = "  " + strings.Join(annotations, "  ")
+		annotationStr = singleLine("  " + strings.Join(annotations, "  "))
 	}
 
 	// Build base prefix (tree + icon).
